@@ -199,6 +199,16 @@ def fill(q, rs, key, onto_only=False):
         s, cs = shp(), build.shape_of(q["cs"])
         m = int(np.prod(cs)) if cs else 1
         n = int(np.prod(s)) if s else 1
+        if len(s) == 1 and s[0] >= 2 and len(cs) == 1 and not onto_only:      # a conditional layer with real structure
+            pick = int(rs.integers(4))
+            if pick == 1:
+                return perturb(bj.Coupling(key, transformer=bj.Affine(), untransformed_dim=s[0] // 2, dim=s[0], cond_dim=cs[0],
+                                           nn_width=4, nn_depth=1), rs, 0.4)
+            if pick == 2:
+                return perturb(bj.MaskedAutoregressive(key, transformer=bj.RationalQuadraticSpline(knots=3, interval=3), dim=s[0],
+                                                       cond_dim=cs[0], nn_width=4, nn_depth=1), rs, 0.4)
+            if pick == 3:
+                return perturb(bj.Planar(key, dim=s[0], cond_dim=cs[0], negative_slope=0.2, width_size=4, depth=1), rs, 0.5)
         return bj.AdditiveCondition(_lin(rs, n, m, s), s, cs)
     if k == "perm":
         s = shp()
